@@ -1,5 +1,5 @@
 (* Props/C19.v -- property C19: reference and identity parsing and formatting are mutual inverses. *)
-From FPV Require Import Base.Prelude C19.Model C19.Proofs.
+From FPV Require Import Base.Prelude C19.Model C19.Proofs C19.Bridge.
 
 (* formatting a literal REST reference and parsing it back returns the same components: any of the 145 types
    of the REST expression, any id, any (or no) version, any canonical service base (or none) *)
@@ -48,6 +48,19 @@ Proof. exact identity_relative_roundtrip. Qed.
 (* the two known findings, as refutations of the unguarded statements *)
 Theorem C19_degenerate_base_refuted : exists orc u l, parse_uri orc u = Ok l /\ parse_uri orc (format l) <> Ok l.
 Proof. exact parse_format_parse_unguarded_refuted. Qed.
+(* the model satisfies the property predicate the correspondence evaluates: on every reference string outside known
+   finding 1, every strong/weak pair outside known finding 2, every triple of references, every canonical *)
+Theorem C19_model_holds_uri : forall u tbl, kf (CUri u tbl) = 0%N -> holds (CUri u tbl) (model (CUri u tbl)) = true.
+Proof. exact model_holds_uri. Qed.
+Theorem C19_model_holds_strong : forall ty id ver tbl, kf (CStrong ty id ver tbl) = 0%N -> holds (CStrong ty id ver tbl) (model (CStrong ty id ver tbl)) = true.
+Proof. exact model_holds_strong. Qed.
+Theorem C19_model_holds_is : forall a b c tbl, holds (CIs a b c tbl) (model (CIs a b c tbl)) = true.
+Proof. exact model_holds_is. Qed.
+Theorem C19_model_holds_canon_new : forall url ver frag, holds (CCanonNew url ver frag) (model (CCanonNew url ver frag)) = true.
+Proof. exact model_holds_canon_new. Qed.
+Theorem C19_model_holds_canon : forall c, holds (CCanon c) (model (CCanon c)) = true.
+Proof. exact model_holds_canon. Qed.
+Print Assumptions C19_model_holds_uri.
 Print Assumptions C19_format_parse.
 Print Assumptions C19_parse_format_parse.
 Print Assumptions C19_strong_weak.
